@@ -611,7 +611,13 @@ def check_property(ctx, case, an, obs):
             n, T, i = m[0]
             rt, img = an['groups'](False)
             rtq, imgq = an['groups'](True)
+            def inwindow(a, b, c):
+                # a contact of this image that is no bond but lies inside the code's window d_min + 0.2 of a bonded pair
+                return any(gg == a and TT == b and rt(ii) == rt(c) and not asu[j]['q'] and compatible(asu[ii], asu[j]) and
+                           an['dmin'][(ii, j)] < limit(asu[ii], asu[j]) <= d <= an['dmin'][(ii, j)] + 0.2 + 1e-3
+                           for (gg, TT, ii, j, d) in an['con'] if not asu[ii]['q'])
             cls = '|merged-fragments' if any((a, b, rt(c)) in img for (a, b, c) in m) else \
+                '|window-wider-than-bond' if any(inwindow(a, b, c) for (a, b, c) in m) else \
                 '|via-qpeak' if any((a, b, rtq(c)) in imgq for (a, b, c) in m) else ''
             sig = 'C14|image|unbonded-fragment-image' + cls
             fails.append((sig, f'added atom {g["name"]} = op{n}{T}({asu[i]["name"]}) belongs to a fragment image that is not bonded to the asymmetric unit',
@@ -622,7 +628,16 @@ def check_property(ctx, case, an, obs):
             if grown[x]['part'] == grown[y]['part'] and not grown[x]['q'] and not grown[y]['q']:
                 d = length(G, [grown[x]['xyz'][c] - grown[y]['xyz'][c] for c in range(3)])
                 if d < DUP - 1e-7:
-                    cls = 'part<0' if grown[x]['part'] < 0 else 'part>=0'
+                    cls = 'part>=0'
+                    if grown[x]['part'] < 0:
+                        # the open finding is narrow: both are the original / images of one atom that sits on a special position
+                        def origins(k):
+                            if k < len(shown):
+                                return {i for i in an['real'] if asu[i]['name'] == grown[k]['name']}
+                            return {i for (nn, TT, i) in match_image(an, grown[k])}
+                        onsite = {i for (gg, TT, i, j, dd) in an['con'] if i == j and dd < 1e-4}
+                        special = y >= len(shown) and bool(origins(x) & origins(y) & onsite)
+                        cls = 'part<0|atom-on-special-position' if special else 'part<0'
                     fails.append((f'C14|coincide|{cls}', f'{grown[x]["name"]} and {grown[y]["name"]} (PART {grown[x]["part"]}) are {d:.4f} A apart',
                                   '>= 0.2', d))
     # (iv) completeness
@@ -790,7 +805,7 @@ def run(ctx):
                        f'lattice types generated: {list(LATTICE_TYPES)} (centred settings are switched off until C11 is repaired)']
     ctx.extra['lattice_types'] = list(LATTICE_TYPES)
     cases = fixed_cases()
-    n = ctx.budget(140, 2500)
+    n = ctx.budget(140, 1800)
     profiles = [None] * 8 + ['many', 'negpart', 'onsite']
     k = 0
     while len(cases) < n + 7 and k < 3 * n:
